@@ -101,6 +101,7 @@ def finalJson (s : State) (keys : List Nat) : Json :=
   Json.mkObj [
     ("snapshot", snapJson (snapOf s keys)),
     ("closing", .bool s.closing), ("closed", .bool s.closed),
+    ("measure", .num (Kopf.C01.measure s)),
     ("hand", .bool s.hand.isSome),
     ("arrived", .arr (keys.map (fun (k : Nat) => Json.arr #[Json.num k, natList (s.arrived k)])).toArray),
     ("started", .arr (keys.map (fun (k : Nat) => Json.arr #[Json.num k, natList (s.started k)])).toArray),
